@@ -347,6 +347,10 @@ def _serve(directory, with_etag=True):
 
     class H(http.server.BaseHTTPRequestHandler):
         protocol_version = "HTTP/1.1"
+        # header and body leave in one segment (otherwise Nagle's algorithm
+        # plus delayed ACKs cost 40 ms per request on the loopback)
+        disable_nagle_algorithm = True
+        wbufsize = -1
 
         def log_message(self, *a):
             pass
